@@ -79,7 +79,8 @@ func configure(g *gen) {
 			{"start", "string", "start", tStr},
 			{"spath", "string", "spath", tStr},
 			{"regex", "*regexp.Regexp", "regex", T{"opaque", "Option Bytes"}}, // nil or the source text of the compiled regexp
-		}},
+			{"params", "Params", "params", T{"opaque", "Option GoRt.KV"}},     // nil or a map (only set on the copies in the route cache)
+		}, Defaults: map[string]string{"params": "none"}},
 	}
 	g.opaque["error"] = T{"opaque", "Bool"} // true = a non-nil error
 	g.opaque["http.ResponseWriter"] = T{"opaque", "Unit"}
@@ -214,6 +215,21 @@ func configure(g *gen) {
 			{Callee: "$.match", Stmts: []string{"let %t := env.match_ s %1 %2", "s := %t.2"},
 				Values: []string{"%t.1.1", "%t.1.2"}, Ts: []T{{"opaque", "Option ρ"}, {"opaque", "Option π"}}},
 		}})
+	// route.go: what the route cache stores — `copyWithParams` (a copy of the route without the compiled pattern, with a
+	// CLONE of the matched params) and `Params.clone`; the order in which `range` visits the map is the parameter `ord`
+	add(FnSpec{Recv: "Params", Func: "clone", Lean: "Params.clone", Extra: []string{"(ord : GoRt.KV → GoRt.KV)"}, MapOrder: "ord",
+		Types: map[string]T{"rux.Params": {"opaque", "Option GoRt.KV"}},
+		Exts: []Ext{{Callee: "make(Params)", Value: "(some [])", T: T{"opaque", "Option GoRt.KV"}},
+			{Callee: "np[]=", Stmts: []string{"np := GoRt.kvSetO np %1 %2"}}}})
+	add(FnSpec{Recv: "Route", Func: "copyWithParams", Lean: "Route.copyWithParams", UseStructs: []string{"Route"}, Extra: []string{"(ord : GoRt.KV → GoRt.KV)"},
+		Types: map[string]T{"rux.Params": {"opaque", "Option GoRt.KV"}}})
+	// parse_match.go: `cacheDynamicRoute` — what a successful dynamic lookup puts into the route cache (the cache is the
+	// abstract state σ with its `Set` operation)
+	add(FnSpec{Recv: "Router", Func: "cacheDynamicRoute", Lean: "Router.cacheDynamicRoute", UseStructs: []string{"Route"},
+		Extra:    []string{"{σ : Type}", "(cacheSet : σ → Bytes → Route → σ)", "(ord : GoRt.KV → GoRt.KV)", "(s0 : σ)"},
+		Prologue: []string{"let mut s : σ := s0"}, RetExtra: []string{"s"}, RetExtraT: []string{"σ"},
+		Types: map[string]T{"rux.Params": {"opaque", "Option GoRt.KV"}},
+		Exts: []Ext{{Callee: "$.cachedRoutes.Set", Stmts: []string{"s := cacheSet s %1 %2"}}}})
 	// extends.go: BuildRequestURL.Build — arguments with a brace in the key are path parameters, the others query
 	// parameters; every `{…}` of the path (found by `varRegex`: parameter `findAll`) is replaced in ONE pass
 	// (`strings.NewReplacer`: parameter `replacer`) by the parameter stored under `{name}` (the regex of `{name:regex}`
